@@ -36,7 +36,7 @@ ASSUMPTIONS = [
     "vacuity guard: the number of (a,b) pairs where A and B differed before loading is counted and reported",
 ]
 
-HISTS = ("fresh", "ddinit", "train2", "evalcalls")
+HISTS = ("fresh", "ddinit", "train2", "evalcalls", "train64")
 
 
 def bounds(tier, seed):
@@ -59,6 +59,14 @@ def run_hist(m, hist, call_train):
                 opt.zero_grad()
                 loss.backward()
                 opt.step()
+    elif hist == "train64":
+        # two training-mode calls on double-precision data in the model as constructed (float32). Where the model accepts
+        # them (element-wise layers with running statistics do, by type promotion) its state must still be what a fresh
+        # float32 model can hold; where it raises a dtype mismatch the history is not executable and is counted as skipped.
+        m.train()
+        with torch.no_grad():
+            call_train(m, step=False, f64=True)
+            call_train(m, step=False, f64=True)
     elif hist == "evalcalls":
         m.eval()
         for mod in m.modules():
@@ -153,8 +161,9 @@ def transform_case(sname, cfg, hist, seed, res=None):
             bump(res["skipped"], "cannot-construct (C11's subject): %s" % type(e).__name__)
         return vio, None
 
-    def call_train(m, step):
-        y, ld = m(x, ctx) if ctx is not None else m(x)
+    def call_train(m, step, f64=False):
+        xx, cc = (x.double(), None if ctx is None else ctx.double()) if f64 else (x, ctx)
+        y, ld = m(xx, cc) if cc is not None else m(xx)
         return (y ** 2).mean() - ld.mean() if step else None
 
     try:
@@ -206,8 +215,9 @@ def dist_case(dname, cfg, hist, seed, res=None):
             bump(res["skipped"], "cannot-construct: %s" % type(e).__name__)
         return vio, None
 
-    def call_train(m, step):
-        lp = m.log_prob(x, context=ctx)
+    def call_train(m, step, f64=False):
+        xx, cc = (x.double(), None if ctx is None else ctx.double()) if f64 else (x, ctx)
+        lp = m.log_prob(xx, context=cc)
         return -lp.mean() if step else None
 
     try:
